@@ -52,6 +52,19 @@ fn o_split(c: &Combined, st: &mut Stats) -> Result<(), String> {
     if !b.parts.version.is_empty() || !b.parts.subpath.is_empty() || !b.parts.qualifiers.is_empty() {
         return Err("builder_with_combined_name sets other fields".into());
     }
+    // the split is a function of its arguments: asked again, it answers the same
+    let again = guard(|| Purl::builder_with_combined_name(t, c.text.as_str())).map_err(|m| format!("the second builder_with_combined_name panicked: {m}"))?;
+    if again.parts.namespace != b.parts.namespace || again.parts.name != b.parts.name || again.package_type != b.package_type {
+        return Err(format!(
+            "builder_with_combined_name({}, <{} bytes>) asked twice: first namespace of {} bytes and name of {} bytes, then namespace of {} bytes and name of {} bytes",
+            c.ty,
+            c.text.len(),
+            b.parts.namespace.len(),
+            b.parts.name.len(),
+            again.parts.namespace.len(),
+            again.parts.name.len()
+        ));
+    }
     let seps = c.text.chars().filter(|x| *x == '/' || *x == ':').count();
     let other_kind = match c.ty.as_str() {
         "golang" | "npm" => c.text.contains(':'),
@@ -219,6 +232,44 @@ fn gbuilt() -> BoxedStrategy<BuiltCase> {
 
 const SHORT: &[char] = &['a', 'B', '/', ':', '.', '@'];
 
+/// Two combined names split directly after one another on one thread: the same stem followed by
+/// every ordered pair of two-character tails over letters of both cases, digits and the characters
+/// the ecosystems split at. What a split remembers from the previous call (a memo keyed by something
+/// weaker than the text) shows on the second one; two-character tails over a full alphabet contain
+/// the collisions of every simple string hash.
+#[derive(Clone, Debug, Serialize, Deserialize)]
+pub struct CombinedPair {
+    pub ty: String,
+    pub first: String,
+    pub second: String,
+}
+
+const TAIL_ALPHABET: &[u8] = b"abcdefghijklmnopqrstuvwxyzABCDEFGHIJKLMNOPQRSTUVWXYZ0123456789/.:@-_";
+const TAIL_ALPHABET_QUICK: &[u8] = b"abmnzABMNZ019/.:@-";
+
+fn combined_pair(alphabet: &[u8], idx: u64) -> Option<CombinedPair> {
+    let k = alphabet.len() as u64;
+    let tails = k * k;
+    let per_type = tails * tails;
+    let ty = ["golang", "npm", "maven"][(idx / per_type) as usize % 3];
+    let i = idx % per_type;
+    let tail = |t: u64| -> String { [alphabet[(t % k) as usize] as char, alphabet[(t / k) as usize] as char].iter().collect() };
+    let stem = match ty {
+        "golang" => "example.com/a",
+        "npm" => "@scope/x",
+        _ => "org.example:lib",
+    };
+    Some(CombinedPair { ty: ty.into(), first: format!("{stem}{}", tail(i / tails)), second: format!("{stem}{}", tail(i % tails)) })
+}
+
+fn o_combined_pair(c: &CombinedPair, st: &mut Stats) -> Result<(), String> {
+    let t = PackageType::from_str(&c.ty).map_err(|_| "bad replay case: type".to_string())?;
+    let _ = guard(|| Purl::builder_with_combined_name(t, c.first.as_str()).build().map(|p| p.combined_name().to_string()));
+    o_split(&Combined { ty: c.ty.clone(), text: c.second.clone() }, st).map_err(|m| format!("directly after splitting {:?}: {m}", c.first))?;
+    st.class("consecutive-pair");
+    Ok(())
+}
+
 pub fn sections() -> Vec<Box<dyn Section>> {
     vec![
         Box::new(Enumerated {
@@ -247,6 +298,44 @@ pub fn sections() -> Vec<Box<dyn Section>> {
             oracle: o_split,
             required: vec!["two-or-more-separators", "separator-of-the-other-kind", "nothing-before-the-separator-or-absent"],
             complete: true,
+        }),
+        Box::new(Enumerated {
+            name: "consecutive-splits-every-pair-of-tails".into(),
+            // quick: an 18-character alphabet (105 k ordered pairs per type); thorough: 68 characters (21 M per type)
+            total: Box::new(|t: crate::engine::Tier| {
+                let k = t.pick(TAIL_ALPHABET_QUICK.len(), TAIL_ALPHABET.len()) as u64;
+                3 * k * k * k * k
+            }),
+            make: Box::new(|t: crate::engine::Tier, i| combined_pair(t.pick(TAIL_ALPHABET_QUICK, TAIL_ALPHABET), i)),
+            oracle: o_combined_pair,
+            required: vec!["consecutive-pair"],
+            complete: true,
+        }),
+        Box::new(Random {
+            name: "split-very-long-names".into(),
+            quick: 400,
+            thorough: 12_000,
+            strategy: Box::new(|_| {
+                // separators at offsets around 2^16 and 2^17 (and at the sizes the source names)
+                let len = prop_oneof![3 => 65_500usize..65_600, 1 => 131_040usize..131_100, 1 => crate::chars::gsize(70_000), 1 => 60_000usize..140_000];
+                (select(&["golang", "npm", "maven", "pypi"][..]), len, select(&['m', 'A', '.', '\u{e9}'][..]), 0u8..4)
+                    .prop_map(|(ty, n, fill, shape)| {
+                        let run: String = std::iter::repeat(fill).take(n).collect();
+                        let text = match (ty, shape) {
+                            ("maven", 0) => format!("{run}:artifact"),
+                            ("maven", 1) => format!("org.example:{run}"),
+                            ("maven", _) => format!("{run}:{run}"),
+                            (_, 0) => format!("example.com/{run}/pkg"),
+                            (_, 1) => format!("{run}/x"),
+                            (_, 2) => format!("@scope/{run}"),
+                            _ => format!("{run}/{run}"),
+                        };
+                        Combined { ty: ty.into(), text }
+                    })
+                    .boxed()
+            }),
+            oracle: o_split,
+            required: vec![],
         }),
         Box::new(Random {
             name: "split-random-strings".into(),
